@@ -6,6 +6,7 @@ use bpaf::*;
 
 pub struct N3 { pub a: u32, pub b: bool, pub c: String }
 pub struct P2(pub u32, pub bool);
+#[derive(Clone)]
 pub enum E { V { a: u32, b: bool }, T(u32, String), U }
 pub struct N5 { pub a: u32, pub b: bool, pub c: String, pub d: Option<u32>, pub e: Vec<String> }
 
